@@ -232,6 +232,10 @@ def run(rep, facts, tier):
     # ------------------------------------------------------------ R01.6 (shared with C03 R03.6)
     rule_exclusive_bound(rep, fx, 'R01.6')
 
+    # ------------------------------------------------------------ R01.8 (shared with C08 R08.9)
+    from rules.C08 import rule_sort_before_limit
+    rule_sort_before_limit(rep, fx, 'R01.8')
+
     # ------------------------------------------------------------ R01.7 (shared with C14 R14.5)
     from rules import numberset
     numberset.run_rule(rep, fx, 'R01.7')
